@@ -49,7 +49,7 @@ def run_c13(ctx):
     ctx.add("transitions", cases["generated"] + m["generated"])
     wd = ctx.workdir("graph")
     trace = os.path.join(wd, "orders.ndjson")
-    s = vlib.harness(ctx, "pkg_replay", ["graph", cases["out"], trace], timeout=7200)
+    s = vlib.harness(ctx, "pkg_replay", ["graph", cases["out"], trace], env={"VERIF_RANDOM_DAGS": "60" if quick else "2000"}, timeout=7200)
     os.remove(cases["out"])
     if s["evaluations"] < 1000:
         raise vlib.ToolError("too few graph cases")
@@ -79,7 +79,8 @@ def run_c13(ctx):
     return vlib.finish(ctx, rule="every labelled DAG on <= 4 nodes (543) x every ordered duplicate-free root selection (64) [thorough: all "
                        "29 281 DAGs on 5 nodes x 9 selections] built as a real workspace; get_dependencies' order validated by TLC "
                        "(ValidOrder: no duplicates, exactly the closure, dependencies first); per DAG two workspaces with a dangling "
-                       "dependency must fail. Non-trivial: order of length >= 2; distinct = (graph, roots).", exhaustive=True)
+                       "dependency must fail; plus 60 (thorough 2000) seeded random DAGs on 6-12 nodes with 6 random root selections each. "
+                       "Non-trivial: order of length >= 2; distinct = (graph, roots).", exhaustive=True)
 
 
 def run_c14(ctx):
